@@ -759,6 +759,14 @@ def execute(cls, hist, opsd, labels):
                 if spec[1] == 'variable':
                     g = last_group(F)
                 groups.append((g, spec[1], spec[2], first, labels[step]))
+            # The names are also asked for in intermediate states (at every
+            # other step): an answer given earlier must not influence a later
+            # one (e.g. a cached list that is not invalidated when the variable
+            # count is raised without creating a group).
+            if (step + len(hist)) % 2 == 0:
+                list(F.all_variable_labels())
+                if step % 3 == 0:
+                    list(F.all_variable_labels(default_label_format='y_{}'))
         except Exception as e:
             return F, groups, (step, op, e)
     return F, groups, None
